@@ -36,15 +36,15 @@ package jschema
 //@   trusted "recursive example assembly: arbitrary effect; ASSUMED only that an example that is present is non-empty and does not end with a comma (a JSON value never does), and the pool protocol (a checked-out buffer is touched by its owner alone)"
 //@   maypanic
 //@   modifies *
-//@   defines normal && result0 != nil ==> len(result0) > 0 && result0[len(result0) - 1] != ','
-//@   defines forall q *stdBytes.Buffer :: !old(q.pooled) ==> !q.pooled && q.n == old(q.n) && q.last == old(q.last) && q.prev == old(q.prev)
+//@   defines normal && result0 != nil ==> len(result0) > 0 && result0[len(result0) - 1] != ',' && result0[0] != ','
+//@   defines forall q *stdBytes.Buffer :: !old(q.pooled) ==> !q.pooled && q.n == old(q.n) && q.last == old(q.last) && q.prev == old(q.prev) && q.b0 == old(q.b0) && q.b1 == old(q.b1)
 //@ func (*exampleBuilder).buildObjectKey(k)
 //@   props C11 C15
 //@   trusted "key example: arbitrary effect; ASSUMED only the pool protocol (a checked-out buffer is touched by its owner alone) and that bytes which existed before the call are not overwritten (examples already returned are owned by their receiver: the ownership post proved for the object/array builders)"
 //@   maypanic
 //@   modifies *
 //@   keeps byte
-//@   defines forall q *stdBytes.Buffer :: !old(q.pooled) ==> !q.pooled && q.n == old(q.n) && q.last == old(q.last) && q.prev == old(q.prev)
+//@   defines forall q *stdBytes.Buffer :: !old(q.pooled) ==> !q.pooled && q.n == old(q.n) && q.last == old(q.last) && q.prev == old(q.prev) && q.b0 == old(q.b0) && q.b1 == old(q.b1)
 
 // C15: "separators decided by what was emitted": the text of an object / array
 // example starts with its bracket, ends with the matching bracket, and the byte
@@ -57,7 +57,8 @@ package jschema
 //@   modifies *
 //@   ensures normal && result1 == nil ==> len(result0) == 0 || result0.$arr > old(alloc)
 //@   ensures normal && result1 == nil ==> len(result0) >= 2 && result0[len(result0) - 1] == '}' && result0[len(result0) - 2] != ','
-//@   loop 0 invariant buf.n >= 1 && buf.last != ',' && !buf.pooled
+//@   ensures normal && result1 == nil ==> result0[0] == '{' && result0[1] != ','
+//@   loop 0 invariant buf.n >= 1 && buf.last != ',' && !buf.pooled && buf.b0 == '{' && (buf.n >= 2 ==> buf.b1 != ',') && (first <==> buf.n == 1)
 
 //@ func (*exampleBuilder).buildExampleForArrayNode(node)
 //@   props C11 C15
@@ -67,4 +68,5 @@ package jschema
 //@   modifies *
 //@   ensures normal && result1 == nil ==> len(result0) == 0 || result0.$arr > old(alloc)
 //@   ensures normal && result1 == nil ==> len(result0) >= 2 && result0[len(result0) - 1] == ']' && result0[len(result0) - 2] != ','
-//@   loop 0 invariant buf.n >= 1 && buf.last != ',' && !buf.pooled
+//@   ensures normal && result1 == nil ==> result0[0] == '[' && result0[1] != ','
+//@   loop 0 invariant buf.n >= 1 && buf.last != ',' && !buf.pooled && buf.b0 == '[' && (buf.n >= 2 ==> buf.b1 != ',') && (first <==> buf.n == 1)
